@@ -135,7 +135,11 @@ static int ctl_pick(int self, int spin) {
   int nonspin[CTL_MAXP], nn = 0, all[CTL_MAXP], na = 0;
   /* delay strategy: the participant that performed event number CTL_DEMOTE_AT is not scheduled
      again until everybody else has only been spinning for a while */
-  if (ctl_demote_at >= 0 && ctl_events == ctl_demote_at && !spin && ctl_np > 1) { ctl_demoted = self; ctl_demote_spins = 0; }
+  static long ctl_demote_start;
+  if (ctl_demote_at >= 0 && ctl_events == ctl_demote_at && !spin && ctl_np > 1) { ctl_demoted = self; ctl_demote_spins = 0; ctl_demote_start = ctl_events; }
+  /* the delay ends at the latest after 3000 events: programs poll with bounded loops (a yield is an event, not a spin),
+     an unbounded delay would turn their bound into a false failure */
+  if (ctl_demoted >= 0 && ctl_events - ctl_demote_start > 3000) ctl_demoted = -1;
   if (ctl_demoted >= 0) {
     if (spin) { if (++ctl_demote_spins > 40 * ctl_np) ctl_demoted = -1; } else if (self != ctl_demoted && !ctl_cur_neutral) ctl_demote_spins = 0;
   }
